@@ -666,4 +666,83 @@ Proof.
   split; intro P; [apply H1|apply H2]; apply G; exact P.
 Qed.
 
+
+(* a delete does not look at the stat it is given *)
+Lemma dw_handle_del_stat c f tmp p s s' : dw_handle c f tmp 2 p s = dw_handle c f tmp 2 p s'.
+Proof. reflexivity. Qed.
+
+Definition no_link_stat (s : stat) : stat := set_linkname s [].
+Lemma no_link_branch s : hardlink_branch (no_link_stat s) = false.
+Proof. unfold hardlink_branch, no_link_stat. simpl. rewrite andb_false_r. reflexivity. Qed.
+
+(* the same theorem; the hard-link source only matters when something is created *)
+Theorem dw_handle_contained' c f tmp kind p st :
+  wf f -> c_cwd c = D -> ok_path p = true -> okname tmp -> ~ In tmp (comps p) ->
+  let pre := removelast (comps p) in
+  let bn := last (comps p) [] in
+  safe f D pre ->
+  (forall dd, rwalk f D pre = Some dd -> blookup tmp (ents f dd) = None) ->
+  (N.eqb kind 2 = false -> hardlink_branch st = true ->
+     ok_path (st_linkname st) = true /\ safe f D (removelast (comps (st_linkname st)))) ->
+  let r := dw_handle c f tmp kind p st in
+  let g := fst r in
+  step (Tp f tmp pre bn) (f_next f) f g
+  /\ (forall cs', off tmp pre bn cs' -> (safe f D cs' -> safe g D cs') /\ rwalk g D cs' = rwalk f D cs')
+  /\ (forall pre' n' dd', off tmp pre bn (pre' ++ [n']) -> rwalk f D pre' = Some dd' ->
+         blookup n' (ents g dd') = blookup n' (ents f dd'))
+  /\ (forall a nd, snd r = DwOk a nd ->
+        (forall dd, rwalk f D pre = Some dd -> blookup tmp (ents g dd) = None)
+        /\ (kind <> 2 -> solid st = true -> safe g D (comps p))
+        /\ (a = true -> solid st = true /\ exists dd i, rwalk f D pre = Some dd /\ blookup bn (ents g dd) = Some i /\ f_next f <= i)).
+Proof.
+  intros W Hc Hok Htmp Hnin pre bn Hsafe Hfree Hlink.
+  destruct (N.eqb kind 2) eqn:Ek.
+  - apply N.eqb_eq in Ek. subst kind. cbv zeta. rewrite (dw_handle_del_stat c f tmp p st (no_link_stat st)).
+    destruct (dw_handle_contained c f tmp 2 p (no_link_stat st) W Hc Hok Htmp Hnin Hsafe Hfree) as (A & B & C0 & E).
+    + rewrite no_link_branch. discriminate.
+    + split; [exact A|]. split; [exact B|]. split; [exact C0|].
+      intros a nd Hres. destruct (E a nd Hres) as (E1 & E2 & E3). split; [exact E1|]. split; [intros H; congruence|].
+      intros Ha. subst a. pose proof (dw_handle_delete_res c f tmp p (no_link_stat st) true nd Hres). discriminate.
+  - apply (dw_handle_contained c f tmp kind p st W Hc Hok Htmp Hnin Hsafe Hfree). intros H. apply Hlink; auto.
+Qed.
+
+(* ---- a directory entry that stays a directory: only its metadata is rewritten ---- *)
+Lemma dw_inplace_quiet c f tmp kind p st :
+  wf f -> c_cwd c = D -> ok_path p = true ->
+  let pre := removelast (comps p) in
+  let bn := last (comps p) [] in
+  safe f D pre -> N.eqb kind 2 = false -> mode_is_dir (st_mode st) = true ->
+  (exists dd i, rwalk f D pre = Some dd /\ blookup bn (ents f dd) = Some i /\ is_dir f i = true /\ get f i <> None) ->
+  step TNone (f_next f) f (fst (dw_handle c f tmp kind p st))
+  /\ forall a nd, snd (dw_handle c f tmp kind p st) = DwOk a nd -> a = false.
+Proof.
+  intros W Hc Hok pre bn Hsafe Hk Hdir (dd & i & Hw & Hbl & Hdi & Hex).
+  pose proof (split_comps p Hok) as Ecs. fold pre bn in Ecs.
+  assert (Hp : relpath p (pre ++ [bn])) by (rewrite <- Ecs; apply ok_path_relpath; auto).
+  unfold dw_handle. rewrite Hk.
+  assert (Hb : f_next f <= f_next f) by lia.
+  destruct (sys_lstat c f p) as [f0 rl] eqn:El.
+  assert (Esnd : snd (sys_lstat c f p) = rl) by (rewrite El; reflexivity).
+  assert (Hsame : step TNone (f_next f) f f /\ forall a nd, DwErr = DwOk a nd -> a = false).
+  { split; [apply step_refl; auto|discriminate]. }
+  destruct rl as [|e|oi ond| | |]; try exact Hsame.
+  - destruct e; try exact Hsame. exfalso.
+    apply Hex. apply (lstat_enoent_dangling D c f p pre bn Hc Hp Hsafe Esnd dd i Hw Hbl).
+  - destruct (lstat_stat D c f p pre bn Hc Hp Hsafe oi ond Esnd) as (dd' & Hw' & _ & Hbl' & Hg).
+    rewrite Hw in Hw'. inversion Hw'; subst dd'. rewrite Hbl in Hbl'. inversion Hbl'; subst oi.
+    assert (Hkd : match i_kind ond with KDir _ _ => true | _ => false end = true).
+    { unfold is_dir, dir_of in Hdi. rewrite Hg in Hdi. destruct ond as [k m]. simpl. destruct k; try discriminate. reflexivity. }
+    rewrite Hdir, Hkd. cbn [andb].
+    assert (Hfull : safe f D (pre ++ [bn])).
+    { apply safe_app. split; auto. intros j Hj. rewrite Hw in Hj. inversion Hj; subst j. apply safe_unfold.
+      rewrite Hbl. split; [|exact I]. destruct (is_link f i) eqn:E; auto.
+      apply is_link_tag in E. apply is_dir_dir_of in Hdi. destruct Hdi as (q & es & Hd). apply dir_of_tag in Hd. congruence. }
+    assert (M : meta_pre (f_next f) pre bn st f).
+    { unfold meta_pre. split; [exact W|]. split; [exact Hb|]. split; [exact Hsafe|]. split; [|intros _; exact Hfull].
+      intros dd' i' Hw'' Hb'. rewrite Hw in Hw''. inversion Hw''; subst dd'. rewrite Hbl in Hb'. inversion Hb'; subst i'. right. exact Hdi. }
+    pose proof (rewrite_meta_step (f_next f) c p pre bn st Hc Hp f M) as S.
+    destruct (rewrite_meta c f p st) as [f1 ok]. cbn [fst snd] in *. split; auto.
+    intros a nd H. destruct ok; inversion H. reflexivity.
+Qed.
+
 End Dw.
